@@ -65,7 +65,11 @@ fn s_su(p: &(String, usize)) -> String { format!("{}\t{}", p.0, p.1) }
 fn s_uu(p: &(usize, usize)) -> String { format!("{}\t{}", p.0, p.1) }
 
 fn main() {
-    std::panic::set_hook(Box::new(|_| {}));
+    if std::env::var("MCPROBE_LOC").is_ok() {
+        std::panic::set_hook(Box::new(|i| { if let Some(l) = i.location() { eprintln!("PANIC-AT {}:{}", l.file(), l.line()); } }));
+    } else {
+        std::panic::set_hook(Box::new(|_| {}));
+    }
     let rules = std::env::var("MCPROBE_RULES").unwrap_or_else(|_| "/repo/Rules".to_string());
     let stdin = std::io::stdin();
     let mut rules_set = false;
